@@ -164,3 +164,88 @@ class EventDomain(Domain):
             if bool(test.value) != truth:
                 return None
         return state
+
+
+# ---------------------------------------------------------------------------------------
+# Must-hold facts (guard dominance)
+# ---------------------------------------------------------------------------------------
+MUTATORS = {'append', 'remove', 'pop', 'insert', 'extend', 'clear', 'update', 'setdefault', 'popitem', 'sort',
+            'reverse', 'add', 'discard'}
+
+
+def norm_fact(test, truth):
+    """(truth, text) with negative comparison operators folded into the polarity."""
+    if isinstance(test, ast.Compare) and len(test.ops) == 1:
+        op = test.ops[0]
+        flip = {ast.IsNot: ast.Is, ast.NotIn: ast.In, ast.NotEq: ast.Eq}
+        for neg, pos in flip.items():
+            if isinstance(op, neg):
+                t2 = ast.Compare(left=test.left, ops=[pos()], comparators=test.comparators)
+                return (not truth, ast.unparse(t2))
+    return (truth, ast.unparse(test))
+
+
+def names_in(node):
+    return frozenset(n.id for n in ast.walk(node) if isinstance(n, ast.Name))
+
+
+class FactDomain(EventDomain):
+    """marks = (facts, user); facts = frozenset of (truth, text, names).  A fact dies when a name it
+    mentions is rebound, or when an object expression it mentions is stored into / mutated."""
+
+    def user_store(self, target, value, stmt, facts, user):
+        return user
+
+    def user_call(self, call, facts, user):
+        return user
+
+    @staticmethod
+    def has(facts, truth, text):
+        return any(f[0] == truth and f[1] == text for f in facts)
+
+    def on_store(self, target, value, stmt, state):
+        (facts, user), consts = state
+        user = self.user_store(target, value, stmt, facts, user)
+        if isinstance(target, ast.Name):
+            facts = frozenset(f for f in facts if target.id not in f[2])
+        else:
+            base = target
+            while isinstance(base, ast.Subscript):
+                base = base.value
+            txt = ast.unparse(base)
+            facts = frozenset(f for f in facts if txt not in f[1])
+        return (((facts, user), consts),)
+
+    def on_call(self, call, state):
+        (facts, user), consts = state
+        user = self.user_call(call, facts, user)
+        f = call.func
+        if isinstance(f, ast.Attribute) and f.attr in MUTATORS:
+            txt = ast.unparse(f.value)
+            base = f.value
+            while isinstance(base, ast.Subscript):
+                base = base.value
+            btxt = ast.unparse(base)
+            facts = frozenset(x for x in facts if txt not in x[1] and btxt not in x[1])
+        return (((facts, user), consts),)
+
+    def enter_loop(self, node, state):
+        out = []
+        for (marks, consts) in super().enter_loop(node, state):
+            facts, user = marks
+            tn = names_in(node.target)
+            facts = frozenset(f for f in facts if not (tn & f[2]))
+            out.append(((facts, user), consts))
+        return out
+
+    def assume(self, test, truth, state):
+        st = super().assume(test, truth, state)
+        if st is None:
+            return None
+        (facts, user), consts = st
+        t, txt = norm_fact(test, truth)
+        # contradiction with a live fact => infeasible
+        if self.has(facts, not t, txt):
+            return None
+        facts = facts | {(t, txt, names_in(test))}
+        return ((facts, user), consts)
